@@ -305,7 +305,81 @@ class SymbolTable():
         # Set the default visibility
         new_st._default_visibility = self.default_visibility
 
+        # The datatypes and initial values of the new symbols must use the
+        # new symbols (kind parameters, array bounds, derived types...).
+        new_st._localise_symbols(new_st, self)
+
         return new_st
+
+    def _localise_symbols(self, table, old_table):
+        '''Update the datatype and the initial value of every symbol in
+        `table` so that any symbol of `old_table` that they refer to is
+        replaced by the symbol with the same name in this table.
+
+        :param table: the table whose symbols are updated.
+        :type table: :py:class:`psyclone.psyir.symbols.SymbolTable`
+        :param old_table: the table that this table is a copy of.
+        :type old_table: :py:class:`psyclone.psyir.symbols.SymbolTable`
+
+        '''
+        for symbol in table.symbols:
+            if isinstance(symbol, (TypedSymbol, DataTypeSymbol)):
+                symbol.datatype = self._localise(symbol.datatype, old_table)
+            if isinstance(symbol, DataSymbol) and symbol.initial_value:
+                self._localise(symbol.initial_value, old_table)
+
+    def _localise(self, item, old_table):
+        '''Replace every symbol of `old_table` referred to by `item` with the
+        symbol that has the same name in this table. PSyIR expressions are
+        updated in place. Datatype objects may be shared with the symbols of
+        `old_table` and are therefore re-created instead of being modified.
+
+        :param item: a symbol, a datatype or a PSyIR expression.
+        :type item: :py:class:`psyclone.psyir.symbols.Symbol` |
+            :py:class:`psyclone.psyir.symbols.DataType` |
+            :py:class:`psyclone.psyir.nodes.Node` | Any
+        :param old_table: the table that this table is a copy of.
+        :type old_table: :py:class:`psyclone.psyir.symbols.SymbolTable`
+
+        :returns: the equivalent of `item` that uses the symbols in this table.
+        :rtype: same as `item`
+
+        '''
+        # pylint: disable=import-outside-toplevel, protected-access
+        from psyclone.psyir.nodes import Literal, Node, Reference
+        from psyclone.psyir.symbols.datatypes import (
+            ArrayType, ScalarType, StructureType)
+        if isinstance(item, Symbol):
+            if old_table._symbols.get(self._normalize(item.name)) is item:
+                return self.lookup(item.name)
+        elif isinstance(item, Node):
+            for node in item.walk((Reference, Literal)):
+                if isinstance(node, Reference):
+                    node.symbol = self._localise(node.symbol, old_table)
+                else:
+                    node._datatype = self._localise(node.datatype, old_table)
+        elif isinstance(item, ScalarType):
+            precision = self._localise(item.precision, old_table)
+            if precision is not item.precision:
+                return ScalarType(item.intrinsic, precision)
+        elif isinstance(item, ArrayType):
+            # The constructor copies the expressions used as bounds.
+            new_type = ArrayType(
+                self._localise(item.datatype, old_table),
+                [dim if isinstance(dim, ArrayType.Extent)
+                 else (dim.lower, dim.upper) for dim in item.shape])
+            for dim in new_type.shape:
+                if not isinstance(dim, ArrayType.Extent):
+                    self._localise(dim.lower, old_table)
+                    self._localise(dim.upper, old_table)
+            return new_type
+        elif isinstance(item, StructureType):
+            return StructureType.create([
+                (cmp.name, self._localise(cmp.datatype, old_table),
+                 cmp.visibility, cmp.initial_value and
+                 self._localise(cmp.initial_value.copy(), old_table))
+                for cmp in item.components.values()])
+        return item
 
     @staticmethod
     def _normalize(key):
